@@ -58,7 +58,23 @@ struct R : FSM::State { W_ALL_CALLBACKS
 	void planSucceeded(FullControl& control) { (void) control; }
 	void planFailed(FullControl& control) { (void) control; } };
 struct A : FSM::State { W_ALL_CALLBACKS };
-struct B : FSM::State {};
+// B exercises the whole control API so that its member functions are instantiated (the bodies below are user code:
+// they are never lowered, calls to them are replaced by contract stubs)
+struct B : FSM::State {
+	void entryGuard(GuardControl& control) { control.cancelPendingTransition(); (void) control.pendingTransition(); (void) control.currentTransition(); (void) control.pendingTransition().payload(); }
+	void update(FullControl& control) {
+		control.changeTo(ffsm2::StateID{1}); control.changeTo<A>(); control.changeWith(ffsm2::StateID{1}, W_PAYLOAD{}); control.changeWith<A>(W_PAYLOAD{});
+		control.succeed(); control.fail(); control.succeed(ffsm2::StateID{1}); control.fail(ffsm2::StateID{1});
+		(void) control.isActive(ffsm2::StateID{1}); (void) control.isActive<A>(); (void) control.stateId(); (void) control.context(); (void) control._(); (void) control.request();
+		(void) control.previousTransitions();
+		auto p = control.plan(); (void) p.change(ffsm2::StateID{0}, ffsm2::StateID{1}); (void) p.changeWith(ffsm2::StateID{0}, ffsm2::StateID{1}, W_PAYLOAD{}); p.clear();
+		(void) static_cast<bool>(p); for (auto it = p.begin(); it; ++it) { (void) it->payload(); it.remove(); }
+		const FullControl& cc = control; auto cp = cc.plan(); (void) static_cast<bool>(cp); for (auto it = cp.begin(); it; ++it) (void) it->origin;
+	}
+	void enter(PlanControl& control) { (void) control.currentTransition(); auto p = control.plan(); (void) p.change<A, B>(); }
+	void query(Ev&, ConstControl& control) const { (void) control.isActive(ffsm2::StateID{1}); (void) control.stateId(); (void) control.context(); (void) control._(); (void) control.request(); (void) control.previousTransitions();
+		/* ConstControlT::plan() cannot be instantiated: CPlanT's constructor is private and ConstControlT is not a friend */ }
+};
 struct Inj1 : FSM::State { W_ALL_CALLBACKS };
 struct Inj2 : FSM::State { W_ALL_CALLBACKS };
 struct Inj3 : FSM::State { W_ALL_CALLBACKS };
@@ -67,7 +83,12 @@ struct C : FSM::StateT<Inj1, Inj2, Inj3> { W_ALL_CALLBACKS };
 struct D : FSM::State {}; struct E : FSM::State {}; struct F : FSM::State {}; struct G : FSM::State {};
 #endif
 
-void w_drive(Ctx& c, Ev& e, FSM::Instance::Logger* l, const W_PAYLOAD& p) {
+#ifndef W_NO_LOG
+using WLogger = FSM::Instance::Logger;
+#else
+using WLogger = void;
+#endif
+void w_drive(Ctx& c, Ev& e, WLogger* l, const W_PAYLOAD& p) {
 	FSM::Instance m{c};
 #ifdef W_MANUAL
 	m.enter();
